@@ -285,6 +285,19 @@ class Sim:
             self.fos = G.FakeOS(self.gw)
             hid.os = self.fos
             kw = dict(reconnect_interval=self.cfg.get("interval", 1), reconnect_limit=self.cfg.get("limit"))
+            import glob as _realglob
+            if self.cfg.get("glob"):
+                # the device node is found through a glob pattern (udev symlinks): while the gateway is away the
+                # pattern matches NOTHING and the driver never gets as far as os.open()
+                def fake_glob(pattern):
+                    if not sim.gw.present:
+                        sim.rec("drv", "open", "fail")
+                        return []
+                    return ["/dev/fake0"]
+                hid.glob = types.SimpleNamespace(glob=fake_glob)
+                kw["glob"] = True
+            else:
+                hid.glob = _realglob
             if kind == "tridonic":
                 hid.random = types.SimpleNamespace(randint=lambda a, b: self.cfg.get("seq0", 250))
 
